@@ -280,7 +280,9 @@ def run_check(spec, tier):
                     broken.append({"what": "build: " + e.stage, "log": e.log[-3000:]})
                     runs = [r for r in runs if not r.get("race")]
             if broken and tier == "quick":
-                runs = spec["runs"]("thorough", seed)  # search harder for a failing input
+                # search harder for a failing input: four times the quick workload (bounded, so that a broken tie
+                # is reported within minutes; the thorough tier searches at full size)
+                runs = [dict(r, n=(r["n"] * 4 if r["n"] > 2 else r["n"] + 1)) for r in runs]
             for i, run in enumerate(runs):
                 wd = os.path.join(work, "run%d" % i)
                 r = run_profile(run, wd, model_ok)
